@@ -26,7 +26,7 @@ func runC13Free(tb ev.TB, p concProg) ev.Result {
 		rep = 1
 	}
 	if ev.Replaying() {
-		rep = 40 // a replay of a schedule-dependent failure is statistical
+		rep = ev.EnvInt("VERIF_REPLAY_REPS", 40) // a replay of a schedule-dependent failure is statistical
 	}
 	for r := 0; r < rep; r++ {
 		s := setup(tb, &p)
